@@ -17,7 +17,7 @@ import (
 
 // genName builds a counter name of arbitrary content from a few tape draws.
 func genName(t *simrt.Tape, tag int, allowNewline bool) string {
-	kind := t.Biased(6, 1, 3)
+	kind := t.Biased(7, 1, 3)
 	var n int
 	switch t.Draw(5) {
 	case 0:
@@ -40,6 +40,30 @@ func genName(t *simrt.Tape, tag int, allowNewline bool) string {
 	b := make([]byte, n)
 	seed := uint64(tag)*0x9e3779b97f4a7c15 + uint64(t.Draw(1<<16))
 	r := simrt.NewRand(seed)
+	if kind == 6 && allowNewline {
+		// A stack counter as the runtime names frames: methods, closures, generic
+		// instantiations and package paths with dots, compressed with ditto marks
+		// as the documentation describes (same package as the frame above).
+		pkgs := []string{"main", "a/b", "example.com/p.q/r", "gopkg.in/yaml.v3", "runtime"}
+		fns := []string{"f", "(*T).m", "T.m", "main.func1", "main.func1.2", "g[...]", "(*T[...]).m", "init.0", "x.y.z"}
+		var sb strings.Builder
+		fmt.Fprintf(&sb, "%d|stack/c", tag)
+		prev := ""
+		for i, nf := 0, 1+r.Intn(8); i < nf; i++ {
+			pkg := pkgs[r.Intn(len(pkgs))]
+			if prev != "" && r.Intn(2) == 0 {
+				pkg = prev
+			}
+			fn := fns[r.Intn(len(fns))]
+			if pkg == prev && r.Intn(4) != 0 {
+				fmt.Fprintf(&sb, "\n\".%s:+%d,+0x%x", fn, r.Intn(100), r.Intn(4096))
+			} else {
+				fmt.Fprintf(&sb, "\n%s.%s:+%d,+0x%x", pkg, fn, r.Intn(100), r.Intn(4096))
+			}
+			prev = pkg
+		}
+		return sb.String()
+	}
 	for i := range b {
 		switch kind {
 		case 0, 1:
